@@ -131,12 +131,12 @@ fn classify(sch: &Sch, an: &Analyzers, rq: &Req, views: &[DocView], engine: &BTr
     let o = compare(&env, rq, views, engine);
     let ok = if d1 {
       // D1 predicate: nothing unexpected; the query has scored term leaves; every missing document
-      // possibly contains none of them.
+      // is not known to contain any of them.
       o.unexpected.is_empty()
         && rq.q.has_scored_leaf(true)
         && o.missing.iter().all(|id| {
           let d = views.iter().find(|v| &v.id == id).unwrap();
-          !scored_any_hi(&env, &rq.q, d, true)
+          !scored_any(&env, &rq.q, d).lo
         })
     } else {
       o.missing.is_empty() && o.unexpected.is_empty()
@@ -265,7 +265,7 @@ fn main() {
     "within one commit every id is touched at most once (ordering inside a batch is C04's subject)".into(),
   ];
   let quick = ctx.quick();
-  let n = ctx.n(130, 3000);
+  let n = ctx.n(500, 15000);
   ctx.run_cases("idx", n, |rng: &mut Rng, l: &mut Local, scratch| {
     let sch = gen_schema(rng);
     let schema = match idx::schema(&sch.json) {
